@@ -66,11 +66,12 @@ pub fn normalize_msg(m: &str) -> String {
             out.push(if c.is_whitespace() { ' ' } else { c });
         }
     }
-    // cut data echoed by the message after a quote/backtick, keeps keys stable across inputs
-    if let Some(p) = out.find(['"', '`']) {
+    // cut data echoed by the message after a double quote (keeps keys stable across inputs);
+    // backticks only wrap code in std's own messages
+    if let Some(p) = out.find('"') {
         out.truncate(p);
     }
-    out.trim().to_string()
+    out.replace('`', "").trim().to_string()
 }
 
 /// Function name of the innermost frame whose source file lies in the repository under test
